@@ -1,0 +1,19 @@
+//go:build verif
+
+package elastic
+
+// Verification hooks (add-only, tag verif): the ring of an elastic buffer comes from a sync.Pool,
+// so its capacity at the moment it is taken is not determined by the program; the harness reads
+// it here and gives it to the model.
+
+// VerifPresent reports whether the ring has been taken from the pool.
+func (b *RingBuffer) VerifPresent() bool { return b.rb != nil }
+
+// VerifPrime takes the ring from the pool now (the next Write would) and returns its capacity.
+func (b *RingBuffer) VerifPrime() int { return b.instance().Cap() }
+
+// VerifRing exposes the ring part of the mixed buffer.
+func (mb *Buffer) VerifRing() *RingBuffer { return &mb.ringBuffer }
+
+// VerifListEmpty reports whether the overflow list is empty.
+func (mb *Buffer) VerifListEmpty() bool { return mb.listBuffer.IsEmpty() }
